@@ -1,3 +1,5 @@
--- This module serves as the root of the `Calc` library.
--- Import modules here that should be built as part of the library.
-import Calc.Basic
+-- Root of the `Calc` library: the executable model.  Theorem modules (Calc/Props, Calc/Audit) are
+-- built per property by ../check and all together by ../setup.sh (see READY.json).
+import Calc.Model.Front
+import Calc.Model.Print
+import Calc.Exec.Canon
